@@ -115,6 +115,7 @@ type Interp struct {
 	Counts  map[string]int
 	Tainted bool   // the current op touched a cache entry filled before the latest override
 	Unknown string // non-empty: the model does not predict this op (reason)
+	runtimeDecs []cfg.Decorator // registered through AddDecorator after construction
 	graph   *Graph
 }
 
@@ -180,6 +181,7 @@ func (it *Interp) New() {
 	it.values = map[string]any{}
 	it.Counts = map[string]int{}
 	it.Events = nil
+	it.runtimeDecs = nil
 	it.funcs = map[string]GoRef{"env": {Sym: "getEnv"}, "envInt": {Sym: "getEnvInt"}, "todo": {Sym: "paramTodo"}}
 	if it.Env == nil {
 		it.Env = map[string]string{}
@@ -727,7 +729,7 @@ func (it *Interp) directDeps(name string) []string {
 				addTag(dep.Name)
 			}
 		}
-		for _, dec := range it.C.Decorators {
+		for _, dec := range it.decorators() {
 			if _, ok := it.tagsOf(d)[dec.Tag]; ok {
 				for _, a := range dec.Args {
 					addVal(a)
@@ -751,7 +753,7 @@ func (it *Interp) directDeps(name string) []string {
 	for _, f := range s.Fields {
 		addVal(f.V)
 	}
-	for _, dec := range it.C.Decorators {
+	for _, dec := range it.decorators() {
 		if _, ok := it.tagsOf(d)[dec.Tag]; ok {
 			for _, a := range dec.Args {
 				addVal(a)
@@ -998,9 +1000,22 @@ func (it *Interp) build(name string, d *SvcDef, b bag) (any, *ErrM) {
 	return it.applyDecorators(name, d, cur, b)
 }
 
+// AddDecorator registers a decorator at run time (after the declared ones).
+func (it *Interp) AddDecorator(dec cfg.Decorator) {
+	it.epoch++
+	it.runtimeDecs = append(it.runtimeDecs, dec)
+}
+
+func (it *Interp) decorators() []cfg.Decorator {
+	if len(it.runtimeDecs) == 0 {
+		return it.C.Decorators
+	}
+	return append(append([]cfg.Decorator{}, it.C.Decorators...), it.runtimeDecs...)
+}
+
 func (it *Interp) applyDecorators(name string, d *SvcDef, cur any, b bag) (any, *ErrM) {
 	tags := it.tagsOf(d)
-	for di, dec := range it.C.Decorators {
+	for di, dec := range it.decorators() {
 		if _, ok := tags[dec.Tag]; !ok {
 			continue
 		}
